@@ -17,7 +17,8 @@ RULE = ("grammars without useless symbols (filtered reference-side): nullable va
         "is_llone_parsable with the PREDICT-disjointness verdict; on reference-LL(1) grammars get_llone_parse_tree(w) "
         "must return a valid tree iff w is in the bounded language (all words <=%d, plus prefixes and one-symbol "
         "extensions of members) and raise NotParsableException otherwise. Non-trivial: >=2 productions and a "
-        "non-empty language; distinct = case hash." % N)
+        "non-empty language; distinct = case hash." % N +
+        ' Later additions: components nullable only through unit chains, inputs ending while such variables remain, a nullable component shared through a unit production.')
 ASSUMPTIONS = ["extra keys for terminals in FOLLOW are not judged", "only grammars without useless symbols are judged"]
 TIERS = {
     "quick": {"workers": 4, "random": 2500},
